@@ -97,6 +97,20 @@ fn child_typed<T: serde::Serialize + serde::de::DeserializeOwned + Send>(c: &C, 
             _ => if c.tmp == 1 { b.with_tmp_dir(&d) } else { b },
         };
     }
+    if c.fail == 4 && c.fail_at >= 1 {
+        // the configured directory does not exist: two sorters are built on it, are alive at the same time, each sorts a
+        // little, and are dropped in either order. Whether build() refuses a missing directory or creates it, once both
+        // sorters are gone nothing of theirs may be left under the existing parent.
+        let cfg = d.join("missing").join("spill");
+        let mk = || ExternalSorterBuilder::new().with_chunk_size(2).with_tmp_dir(&cfg).build();
+        let s1 = mk();
+        let s2 = mk();
+        for s in [&s1, &s2] { if let Ok(s) = s { if let Ok(it) = s.sort(vec![5u64, 3, 9, 1, 7]) { let _ = it.count(); } } }
+        let code = if s1.is_ok() || s2.is_ok() { 5 } else { 4 };
+        if c.order == 0 { drop(s1); drop(s2); } else { drop(s2); drop(s1); }
+        let fin = listing(&d);
+        return format!("{} 0 0 0 0 0 0 {} {} {} {} 0 0 0", base0.len(), fin.difference(&base0).count(), base0.difference(&fin).count(), count_recursive(&other).abs_diff(other0), code);
+    }
     if c.fail == 4 {
         unsafe { let lim = libc::rlimit { rlim_cur: 3 << 30, rlim_max: 3 << 30 }; libc::setrlimit(libc::RLIMIT_AS, &lim); }
     }
@@ -218,6 +232,11 @@ fn gen(rng: &mut Rng, tier: Tier) -> Vec<Case> {
         let c = C { tmp: (i % 2) as u64, n: 4, c: 2, comp: None, fail: 4, fail_at: 0, consume: 0, order: 0, obs_at: 0, border: rng.below(24), heavy: 0 };
         out.push(Case::new("build-fails", enc(&c)));
     }
+    // the configured directory does not exist; two sorters on it at the same time, dropped in either order
+    for i in 0..4u64 {
+        let c = C { tmp: i / 2, n: 4, c: 2, comp: None, fail: 4, fail_at: 1, consume: 0, order: i % 2, obs_at: 0, border: rng.below(24), heavy: 0 };
+        out.push(Case::new("missing-dir", enc(&c)));
+    }
     // many runs: more than 2^8 of them exist when the snapshot is taken (a fan-in limit or an intermediate merge pass that
     // puts its output somewhere else shows only then)
     for (i, (n, c_size)) in [(300usize, 1usize), (640, 2)].into_iter().enumerate() {
@@ -239,7 +258,7 @@ fn gen(rng: &mut Rng, tier: Tier) -> Vec<Case> {
 pub fn prop() -> PropDef {
     PropDef {
         id: "C15",
-        rule: "corpus, then lifetime scripts run in a child process whose TMPDIR is a fresh directory: explicit or default tmp dir (both pre-populated with a file and a sub-directory), the builder's four setters called in every order, inputs of c+1..8c records for chunk sizes c in {1,2,3,10,50}, with or without compression; the input iterator snapshots the directory (and /proc/self/fd) after at least one chunk exists; then either a normal sort followed by draining / dropping after k items / never consuming, with the iterator dropped before or after the sorter, or a panic raised by the input iterator at item j, a panic raised by the comparator at its m-th call, or sort_by returning an error (descriptor limit lowered mid-sort); listing compared before build, after build, during the sort and after the drops; /proc/self/fd compared before build, during the sort and when sort_by has returned; a few sorts of records owning heap data (0.5-3 KiB strings, runs of 1-12 MiB); a build() that fails (usize::MAX worker threads under a 3 GiB address-space limit); two sorts that have more than 2^8 runs open when the snapshot is taken. Non-trivial: the during-snapshot was taken with >= 1 chunk created. Distinct = distinct input token sequence.",
+        rule: "corpus, then lifetime scripts run in a child process whose TMPDIR is a fresh directory: explicit or default tmp dir (both pre-populated with a file and a sub-directory), the builder's four setters called in every order, inputs of c+1..8c records for chunk sizes c in {1,2,3,10,50}, with or without compression; the input iterator snapshots the directory (and /proc/self/fd) after at least one chunk exists; then either a normal sort followed by draining / dropping after k items / never consuming, with the iterator dropped before or after the sorter, or a panic raised by the input iterator at item j, a panic raised by the comparator at its m-th call, or sort_by returning an error (descriptor limit lowered mid-sort); listing compared before build, after build, during the sort and after the drops; /proc/self/fd compared before build, during the sort and when sort_by has returned; a few sorts of records owning heap data (0.5-3 KiB strings, runs of 1-12 MiB); a build() that fails (usize::MAX worker threads under a 3 GiB address-space limit); two sorters built on a configured directory that does not exist, alive at the same time, dropped in either order; two sorts that have more than 2^8 runs open when the snapshot is taken. Non-trivial: the during-snapshot was taken with >= 1 chunk created. Distinct = distinct input token sequence.",
         observable: "entries created under the configured directory by build(), during sort_by (top level, inside the temporary directory), after the drops (new and missing entries), entries created under the other temporary directory, descriptors opened during the sort on files (linked or already unlinked) outside the configured directory, result of sort_by",
         gen, exec, shrink, child: Some(child),
     }
